@@ -86,6 +86,8 @@ type State struct {
 	calln  map[string]int // per-callee occurrence counters are static; this counts dynamic names to disambiguate
 	maps   int
 	tainted string // non-empty: path left the supported subset (reason)
+	names   map[string]string // term -> name given to it on this path
+	lits    map[string]bool   // facts assumed on this path (for syntactic branch pruning)
 }
 
 func (st *State) clone() *State {
@@ -103,6 +105,14 @@ func (st *State) clone() *State {
 		n.frames[i] = f.clone()
 	}
 	n.path = append([]string(nil), st.path...)
+	n.names = make(map[string]string, len(st.names))
+	for k, v := range st.names {
+		n.names[k] = v
+	}
+	n.lits = make(map[string]bool, len(st.lits))
+	for k, v := range st.lits {
+		n.lits[k] = v
+	}
 	return &n
 }
 
@@ -117,7 +127,15 @@ func (st *State) assume(f string) {
 		n = st.facts.n
 	}
 	st.facts = &factNode{line: f, prev: st.facts, n: n + 1}
+	if len(f) < 200 {
+		if st.lits == nil {
+			st.lits = map[string]bool{}
+		}
+		st.lits[f] = true
+	}
 }
+
+func (st *State) hasFact(f string) bool { return st.lits[f] }
 
 func (st *State) factList() []string {
 	var out []string
@@ -228,6 +246,8 @@ type Exec struct {
 	callOrd   map[ssa.Instruction]int
 	loopOrd   map[*ssa.BasicBlock]int
 	coverDone bool
+	forks     int
+	preludeLoc map[string]bool
 	props     []string
 	entryDecr    string
 	entryTargets map[string][]string
